@@ -335,4 +335,359 @@ theorem crun_bound (limit : Nat) (hl : limit ≠ 0) (chk : String → CheckRes) 
   have := (key evs (CSt.init res) ⟨by simp [CSt.init], by simp [CSt.init]⟩).2
   omega
 
+/-! ### exactly `limit` objects — when no send is lost -/
+
+def Ev.clean : Ev → Bool
+  | .recv drop => !drop
+  | .send _ drop => !drop
+  | .deadline => false
+  | .stop => false
+  | .reError _ => false
+  | _ => true
+
+def isConf (chk : String → CheckRes) (p : String × Bool) : Bool := !p.2 || decide (chk p.1 = .allow)
+/-- number of confirmed results: NoFurtherEval results plus candidates whose Check allows -/
+def nConf (chk : String → CheckRes) (l : List (String × Bool)) : Nat := l.countP (isConf chk)
+def nAllow (chk : String → CheckRes) (l : List String) : Nat := l.countP (fun o => decide (chk o = .allow))
+
+/-- number of `trySendObject` calls so far -/
+def calls (limit : Nat) (s : CSt) : Nat := if limit ≠ 0 then s.found else s.out.length + s.counted.length
+
+theorem countP_eraseIdx {α : Type} (p : α → Bool) {l : List α} {i : Nat} {o : α} (h : l[i]? = some o) :
+    (l.eraseIdx i).countP p + (if p o = true then 1 else 0) = l.countP p := by
+  induction l generalizing i with
+  | nil => simp at h
+  | cons x xs ih =>
+    cases i with
+    | zero =>
+      simp at h; subst h
+      simp only [List.eraseIdx_cons_zero, List.countP_cons]
+    | succ j =>
+      simp at h
+      have := ih h
+      simp only [List.eraseIdx_cons_succ, List.countP_cons]
+      omega
+
+theorem calls_pos {limit : Nat} (hl : limit ≠ 0) (s : CSt) : calls limit s = s.found := by
+  unfold calls; rw [if_pos hl]
+
+theorem calls_zero {limit : Nat} (hl : ¬ limit ≠ 0) (s : CSt) : calls limit s = s.out.length + s.counted.length := by
+  unfold calls; rw [if_neg hl]
+
+theorem countObj_pos {limit : Nat} (hl : limit ≠ 0) (s : CSt) :
+    countObj limit s = ({ s with found := s.found + 1 }, decide (s.found + 1 ≤ limit)) := by
+  unfold countObj; rw [if_pos hl]
+
+theorem countObj_zero {limit : Nat} (hl : ¬ limit ≠ 0) (s : CSt) : countObj limit s = (s, true) := by
+  unfold countObj; rw [if_neg hl]
+
+def NoCheckErr (chk : String → CheckRes) (o : String) : Prop := chk o = .allow ∨ chk o = .deny
+
+structure ExactInv (limit : Nat) (chk : String → CheckRes) (total : Nat) (s : CSt) : Prop where
+  le : calls limit s + nAllow chk s.inflight + nConf chk s.queue ≤ total
+  eq : s.cancelled = false → calls limit s + nAllow chk s.inflight + nConf chk s.queue = total
+  len : limit ≠ 0 → s.out.length + s.counted.length = min s.found limit
+  canc : s.cancelled = true → limit ≠ 0 ∧ s.found ≥ limit
+  stop : s.stopped = true → s.cancelled = false → s.queue = []
+  noerr : s.err = false ∧ s.dl = false
+  chkI : ∀ o ∈ s.inflight, NoCheckErr chk o
+  chkQ : ∀ p ∈ s.queue, p.2 = true → NoCheckErr chk p.1
+
+theorem cstep_exact (limit : Nat) (chk : String → CheckRes) (total : Nat) (s : CSt) (e : Ev) (hc : e.clean = true)
+    (h : ExactInv limit chk total s) : ExactInv limit chk total (cstep limit chk s e) := by
+  cases e with
+  | recv drop =>
+    have hd : drop = false := by simpa [Ev.clean] using hc
+    subst hd
+    simp only [cstep]
+    split
+    · exact h
+    · split
+      · rename_i hq
+        exact ⟨h.le, h.eq, h.len, h.canc, fun _ _ => hq, h.noerr, h.chkI, h.chkQ⟩
+      · rename_i o further q hq
+        have hchkq : ∀ p ∈ q, p.2 = true → NoCheckErr chk p.1 :=
+          fun p hp => h.chkQ p (by rw [hq]; exact List.mem_cons_of_mem _ hp)
+        split
+        · rename_i hlim
+          simp only [Bool.and_eq_true, decide_eq_true_eq, ne_eq, decide_not, Bool.not_eq_true'] at hlim
+          refine ⟨h.le, fun hcf => by simp at hcf, h.len, fun _ => ⟨by simpa using hlim.1, hlim.2⟩,
+            fun _ hcf => by simp at hcf, h.noerr, h.chkI, h.chkQ⟩
+        · rename_i hlim
+          have hlim' : limit ≠ 0 → s.found < limit := by
+            intro hl
+            simp only [Bool.and_eq_true, decide_eq_true_eq, not_and] at hlim
+            have := hlim (by simpa using hl)
+            omega
+          split
+          · -- NoFurtherEval: trySendObject in the loop
+            rename_i hf
+            have hff : further = false := by simpa using hf
+            subst hff
+            have hcq : nConf chk s.queue = nConf chk q + 1 := by
+              rw [hq]; simp [nConf, isConf, List.countP_cons]
+            simp only [Bool.false_and, Bool.not_false, Bool.and_true]
+            by_cases hl : limit ≠ 0
+            · rw [countObj_pos hl]
+              have hlt := hlim' hl
+              have hgo : decide (s.found + 1 ≤ limit) = true := by simp only [decide_eq_true_eq]; omega
+              simp only [hgo, if_true]
+              refine ⟨?_, ?_, ?_, ?_, ?_, h.noerr, h.chkI, hchkq⟩
+              · have := h.le; rw [calls_pos hl] at this ⊢; simp only at this ⊢; omega
+              · intro hcf
+                have := h.eq hcf; rw [calls_pos hl] at this ⊢; simp only at this ⊢; omega
+              · intro _
+                have := h.len hl
+                simp only [List.length_append, List.length_cons, List.length_nil]
+                omega
+              · intro hcf; have := h.canc hcf; exact ⟨hl, by omega⟩
+              · intro hst hcf
+                have := h.stop hst hcf; rw [this] at hq; cases hq
+            · have hl0 : limit = 0 := by simpa using hl
+              rw [countObj_zero hl]
+              simp only [if_true]
+              refine ⟨?_, ?_, fun hl' => absurd hl0 hl', ?_, ?_, h.noerr, h.chkI, hchkq⟩
+              · have := h.le; rw [calls_zero hl] at this ⊢
+                simp only [List.length_append, List.length_cons, List.length_nil] at this ⊢; omega
+              · intro hcf
+                have := h.eq hcf; rw [calls_zero hl] at this ⊢
+                simp only [List.length_append, List.length_cons, List.length_nil] at this ⊢; omega
+              · intro hcf; exact absurd hl0 (h.canc hcf).1
+              · intro hst hcf
+                have := h.stop hst hcf; rw [this] at hq; cases hq
+          · -- candidate: a Check is started
+            rename_i hf
+            have hft : further = true := by simpa using hf
+            subst hft
+            have hcq : nConf chk s.queue = nConf chk q + (if chk o = .allow then 1 else 0) := by
+              rw [hq]; simp [nConf, isConf, List.countP_cons]
+            have hca : nAllow chk (s.inflight ++ [o]) = nAllow chk s.inflight + (if chk o = .allow then 1 else 0) := by
+              simp [nAllow, List.countP_append, List.countP_cons]
+            have hcalls : calls limit { s with queue := q, inflight := s.inflight ++ [o] } = calls limit s := rfl
+            refine ⟨?_, ?_, h.len, h.canc, ?_, h.noerr, ?_, hchkq⟩
+            · show calls limit { s with queue := q, inflight := s.inflight ++ [o] } + nAllow chk (s.inflight ++ [o]) + nConf chk q ≤ total
+              rw [hcalls, hca]; have := h.le; omega
+            · intro hcf
+              show calls limit { s with queue := q, inflight := s.inflight ++ [o] } + nAllow chk (s.inflight ++ [o]) + nConf chk q = total
+              rw [hcalls, hca]; have := h.eq hcf; omega
+            · intro hst hcf
+              have := h.stop hst hcf; rw [this] at hq; cases hq
+            · intro o' ho'
+              rcases List.mem_append.mp ho' with ho' | ho'
+              · exact h.chkI o' ho'
+              · simp at ho'; subst ho'
+                exact h.chkQ (o', true) (by rw [hq]; simp) rfl
+  | checkDone i =>
+    simp only [cstep]
+    split
+    · exact h
+    · rename_i o hio
+      have hne := h.chkI o (mem_of_getElem?' hio)
+      have hcp := countP_eraseIdx (fun o => decide (chk o = .allow)) hio
+      have hchki : ∀ o' ∈ s.inflight.eraseIdx i, NoCheckErr chk o' :=
+        fun o' ho' => h.chkI o' (List.mem_of_mem_eraseIdx ho')
+      rcases hne with hallow | hdeny
+      · simp only [hallow]
+        simp only [hallow, decide_true, if_true] at hcp
+        by_cases hl : limit ≠ 0
+        · rw [countObj_pos hl]
+          simp only
+          split
+          · rename_i hgo
+            simp only [decide_eq_true_eq] at hgo
+            refine ⟨?_, ?_, ?_, ?_, h.stop, h.noerr, hchki, h.chkQ⟩
+            · have := h.le; rw [calls_pos hl] at this ⊢; unfold nAllow at this ⊢; simp only at this ⊢; omega
+            · intro hcf; have := h.eq hcf; rw [calls_pos hl] at this ⊢; unfold nAllow at this ⊢; simp only at this ⊢; omega
+            · intro _
+              have := h.len hl
+              simp only [List.length_append, List.length_cons, List.length_nil]
+              omega
+            · intro hcf; have := h.canc hcf; exact ⟨hl, by simp only; omega⟩
+          · rename_i hgo
+            simp only [decide_eq_true_eq] at hgo
+            refine ⟨?_, ?_, ?_, ?_, h.stop, h.noerr, hchki, h.chkQ⟩
+            · have := h.le; rw [calls_pos hl] at this ⊢; unfold nAllow at this ⊢; simp only at this ⊢; omega
+            · intro hcf; have := h.eq hcf; rw [calls_pos hl] at this ⊢; unfold nAllow at this ⊢; simp only at this ⊢; omega
+            · intro _; have := h.len hl; simp only; omega
+            · intro hcf; have := h.canc hcf; exact ⟨hl, by simp only; omega⟩
+        · have hl0 : limit = 0 := by simpa using hl
+          rw [countObj_zero hl]
+          simp only [if_true]
+          refine ⟨?_, ?_, fun hl' => absurd hl0 hl', ?_, h.stop, h.noerr, hchki, h.chkQ⟩
+          · have := h.le; rw [calls_zero hl] at this ⊢; unfold nAllow at this ⊢
+            simp only [List.length_append, List.length_cons, List.length_nil] at this ⊢; omega
+          · intro hcf; have := h.eq hcf; rw [calls_zero hl] at this ⊢; unfold nAllow at this ⊢
+            simp only [List.length_append, List.length_cons, List.length_nil] at this ⊢; omega
+          · intro hcf; exact absurd hl0 (h.canc hcf).1
+      · simp only [hdeny]
+        have : decide (CheckRes.deny = CheckRes.allow) = false := by decide
+        simp only [hdeny, this, Bool.false_eq_true, if_false, Nat.add_zero] at hcp
+        refine ⟨?_, ?_, h.len, h.canc, h.stop, h.noerr, hchki, h.chkQ⟩
+        · have := h.le; unfold calls nAllow at this ⊢; simp only at this ⊢; omega
+        · intro hcf; have := h.eq hcf; unfold calls nAllow at this ⊢; simp only at this ⊢; omega
+  | abort i =>
+    simp only [cstep]
+    split
+    · rename_i hcanc
+      have hsub := (List.eraseIdx_sublist s.inflight i).countP_le (p := fun o => decide (chk o = .allow))
+      refine ⟨?_, fun hcf => by simp [hcanc] at hcf, h.len, h.canc, h.stop, h.noerr,
+        fun o' ho' => h.chkI o' (List.mem_of_mem_eraseIdx ho'), h.chkQ⟩
+      have := h.le; unfold calls nAllow at this ⊢; simp only at this ⊢; omega
+    · exact h
+  | send i drop =>
+    have hd : drop = false := by simpa [Ev.clean] using hc
+    subst hd
+    simp only [cstep]
+    split
+    · exact h
+    · rename_i o hio
+      have hlen := length_eraseIdx_of_getElem? hio
+      simp only [Bool.false_and, Bool.false_eq_true, if_false]
+      refine ⟨?_, ?_, ?_, h.canc, h.stop, h.noerr, h.chkI, h.chkQ⟩
+      · have := h.le; unfold calls at this ⊢
+        simp only [List.length_append, List.length_cons, List.length_nil] at this ⊢
+        split at this <;> simp_all <;> omega
+      · intro hcf
+        have := h.eq hcf; unfold calls at this ⊢
+        simp only [List.length_append, List.length_cons, List.length_nil] at this ⊢
+        split at this <;> simp_all <;> omega
+      · intro hl
+        have := h.len hl
+        simp only [List.length_append, List.length_cons, List.length_nil]
+        omega
+  | deadline => simp [Ev.clean] at hc
+  | stop => simp [Ev.clean] at hc
+  | reError hard => simp [Ev.clean] at hc
+
+/-- **limit_exact (partial)**: for every schedule without deadline, without reverse-expansion or Check
+errors and in which no channel send is lost to a concurrent `cancel()`, once all goroutines have returned
+the response holds exactly `min limit |confirmed|` objects (`limit = 0`: all of them). -/
+theorem limit_exact_partial (limit : Nat) (chk : String → CheckRes) (res : List (String × Bool)) (evs : List Ev)
+    (hclean : ∀ e ∈ evs, e.clean = true) (hchk : ∀ p ∈ res, p.2 = true → NoCheckErr chk p.1)
+    (hq : (crun limit chk evs (CSt.init res)).quiescent = true) :
+    (crun limit chk evs (CSt.init res)).out.length = (if limit = 0 then nConf chk res else min limit (nConf chk res)) ∧
+    (crun limit chk evs (CSt.init res)).err = false := by
+  have key : ∀ (evs : List Ev) (s : CSt), (∀ e ∈ evs, e.clean = true) → ExactInv limit chk (nConf chk res) s →
+      ExactInv limit chk (nConf chk res) (crun limit chk evs s) := by
+    intro evs
+    induction evs with
+    | nil => intro s _ h; exact h
+    | cons e es ih =>
+      intro s hcl h
+      exact ih _ (fun e' he' => hcl e' (List.mem_cons_of_mem _ he')) (cstep_exact limit chk _ s e (hcl e (by simp)) h)
+  have init : ExactInv limit chk (nConf chk res) (CSt.init res) := by
+    refine ⟨?_, ?_, ?_, ?_, ?_, ⟨rfl, rfl⟩, ?_, hchk⟩
+    · simp [calls, CSt.init, nAllow]
+    · intro _; simp [calls, CSt.init, nAllow]
+    · intro _; simp [CSt.init]
+    · intro h; simp [CSt.init] at h
+    · intro h; simp [CSt.init] at h
+    · intro o ho; simp [CSt.init] at ho
+  have inv := key evs (CSt.init res) hclean init
+  generalize crun limit chk evs (CSt.init res) = s at *
+  unfold CSt.quiescent at hq
+  simp only [Bool.and_eq_true, List.isEmpty_iff] at hq
+  obtain ⟨⟨hst, hinf⟩, hcnt⟩ := hq
+  refine ⟨?_, inv.noerr.1⟩
+  have hna : nAllow chk ([] : List String) = 0 := rfl
+  have hnc : nConf chk ([] : List (String × Bool)) = 0 := rfl
+  by_cases hcf : s.cancelled = true
+  · obtain ⟨hl, hfound⟩ := inv.canc hcf
+    have hlen := inv.len hl
+    have hle := inv.le
+    rw [calls_pos hl, hinf, hna] at hle
+    rw [hcnt] at hlen
+    simp only [List.length_nil, Nat.add_zero] at hlen
+    have hl0 : ¬ limit = 0 := hl
+    rw [if_neg hl0]
+    omega
+  · have hcf' : s.cancelled = false := by simpa using hcf
+    have hqe := inv.stop hst hcf'
+    have heq := inv.eq hcf'
+    rw [hinf, hqe, hna, hnc] at heq
+    by_cases hl : limit = 0
+    · rw [if_pos hl]
+      rw [calls_zero (by simpa using hl), hcnt] at heq
+      simp only [List.length_nil, Nat.add_zero] at heq
+      exact heq
+    · rw [if_neg hl]
+      have hlen := inv.len hl
+      rw [hcnt] at hlen
+      simp only [List.length_nil, Nat.add_zero] at hlen
+      rw [calls_pos hl] at heq
+      omega
+
+/-! ### the full statement is false: a counted object can lose its send to `cancel()` -/
+
+/-- the full-strength statement: the same without the "no send is lost" restriction on the schedule -/
+def FullLimitExact : Prop :=
+  ∀ (limit : Nat) (chk : String → CheckRes) (res : List (String × Bool)) (evs : List Ev),
+    (∀ e ∈ evs, e ≠ .deadline ∧ e ≠ .stop ∧ ∀ h, e ≠ .reError h) → (∀ p ∈ res, p.2 = true → NoCheckErr chk p.1) →
+    (crun limit chk evs (CSt.init res)).quiescent = true →
+    (crun limit chk evs (CSt.init res)).out.length = (if limit = 0 then nConf chk res else min limit (nConf chk res))
+
+/-- limit 1, two candidates that both pass their Check: the first Check counts its object
+(`objectsFound.Add(1) = 1`), the loop receives the second candidate, sees `objectsFound >= maxResults`
+and cancels, and the first goroutine's `select` takes `ctx.Done()`.  The response is empty although two
+objects are permitted and neither the deadline nor an error occurred. -/
+theorem limit_exact_fails : ¬ FullLimitExact := by
+  intro h
+  have := h 1 (fun _ => .allow) [("doc:1", true), ("doc:2", true)]
+    [.recv false, .checkDone 0, .recv false, .send 0 true]
+    (by intro e he; simp at he; rcases he with rfl | rfl | rfl | rfl <;> simp)
+    (by intro p _ _; exact Or.inl rfl) (by decide)
+  revert this
+  decide
+
+/-! ### nothing confirmed is missing when the limit does not cut -/
+
+theorem subset_of_nodup_length {l1 : List String} : ∀ (l2 : List String), l1.Nodup → (∀ a ∈ l1, a ∈ l2) →
+    l2.length ≤ l1.length → ∀ a ∈ l2, a ∈ l1 := by
+  induction l1 with
+  | nil =>
+    intro l2 _ _ hlen a ha
+    cases l2 with
+    | nil => cases ha
+    | cons _ _ => simp at hlen
+  | cons x xs ih =>
+    intro l2 hnd hsub hlen a ha
+    have hx : x ∈ l2 := hsub x (by simp)
+    have hnd' := List.nodup_cons.mp hnd
+    have hsub' : ∀ b ∈ xs, b ∈ l2.erase x := by
+      intro b hb
+      have hbx : b ≠ x := fun e => hnd'.1 (e ▸ hb)
+      exact (List.mem_erase_of_ne hbx).mpr (hsub b (List.mem_cons_of_mem _ hb))
+    have hlen' : (l2.erase x).length ≤ xs.length := by
+      rw [List.length_erase_of_mem hx]; simp at hlen; omega
+    by_cases hax : a = x
+    · subst hax; simp
+    · exact List.mem_cons_of_mem _ (ih (l2.erase x) hnd'.2 hsub' hlen' a ((List.mem_erase_of_ne hax).mpr ha))
+
+/-- **out_complete**: clean schedule, no Check errors, all goroutines returned, and the limit does not
+cut (`limit = 0` or at least as large as the number of confirmed objects) ⇒ every confirmed object is in
+the response. -/
+theorem out_complete (limit : Nat) (chk : String → CheckRes) (res : List (String × Bool)) (evs : List Ev)
+    (hclean : ∀ e ∈ evs, e.clean = true) (hchk : ∀ p ∈ res, p.2 = true → NoCheckErr chk p.1)
+    (hq : (crun limit chk evs (CSt.init res)).quiescent = true)
+    (hlim : limit = 0 ∨ nConf chk res ≤ limit) (hnd : (res.map Prod.fst).Nodup) :
+    ∀ p ∈ res, isConf chk p = true → p.1 ∈ (crun limit chk evs (CSt.init res)).out := by
+  have hlen := (limit_exact_partial limit chk res evs hclean hchk hq).1
+  have hlen' : (crun limit chk evs (CSt.init res)).out.length = nConf chk res := by
+    rcases hlim with h0 | hle
+    · rw [hlen, if_pos h0]
+    · by_cases h0 : limit = 0
+      · rw [hlen, if_pos h0]
+      · rw [hlen, if_neg h0]; omega
+  have hsub : ∀ a ∈ (crun limit chk evs (CSt.init res)).out, a ∈ (res.filter (isConf chk)).map Prod.fst := by
+    intro a ha
+    rcases crun_out_confirmed limit chk res evs a ha with h | ⟨h, hallow⟩
+    · exact List.mem_map.mpr ⟨(a, false), List.mem_filter.mpr ⟨h, by simp [isConf]⟩, rfl⟩
+    · exact List.mem_map.mpr ⟨(a, true), List.mem_filter.mpr ⟨h, by simp [isConf, hallow]⟩, rfl⟩
+  have hcl : ((res.filter (isConf chk)).map Prod.fst).length ≤ (crun limit chk evs (CSt.init res)).out.length := by
+    rw [hlen', List.length_map, nConf, List.countP_eq_length_filter]
+    exact Nat.le_refl _
+  intro p hp hc
+  exact subset_of_nodup_length _ (crun_nodup limit chk res evs hnd) hsub hcl p.1
+    (List.mem_map.mpr ⟨p, List.mem_filter.mpr ⟨hp, hc⟩, rfl⟩)
+
 end OpenFGAVerif.RevExpand
